@@ -516,6 +516,9 @@ def check_case(model: SrcModel, case) -> List[Tuple[str, str, str]]:
         for seg in node["segments"]:
             for el in seg["elements"]:
                 alone = run_validation(model, "element", el, env, "fwd", "IS_REQUIRED")
+                if el["disc"] not in by_disc:
+                    problems.append(("C15.own-input", key, f"{key}: element {el['disc']} is not reported at all when it is validated inside the tree"))
+                    continue
                 if alone[0] != "ret" or (alone[1]["status"], alone[1].get("format")) != (by_disc[el["disc"]]["status"], by_disc[el["disc"]].get("format")):
                     problems.append(("C15.own-input", key, f"{key}: element {el['disc']} validated on its own gives {alone[1] if alone[0] == 'ret' else alone}, inside the tree {by_disc[el['disc']]}"))
     return problems
@@ -531,6 +534,8 @@ def _worker(args):
             problems.extend(check_case(model, cs[i]))
         except AnalysisError as err:
             errors.append(f"{type(err).__name__}: {err}")
+        except (KeyError, IndexError, TypeError, AttributeError, ValueError) as err:  # the comparison code met a result shape it does not know
+            errors.append(f"Unsupported: result of case {i} has an unexpected shape ({type(err).__name__}: {err})")
     return problems, errors
 
 
